@@ -159,6 +159,28 @@ pub broadcast proof fn b_cidx_end(s: &str)
     axiom_cidx_boff(s@, s@.len() as int);
     axiom_cidx_boff(s@, 0);
 }
+/// UTF-8 encoding distributes over concatenation (induction on vstd's definition)
+pub proof fn lemma_encode_concat(a: Seq<char>, b: Seq<char>)
+    ensures encode_utf8(a + b) =~= encode_utf8(a) + encode_utf8(b)
+    decreases a.len()
+{
+    if a.len() == 0 { assert(a + b =~= b); }
+    else {
+        assert((a + b)[0] == a[0]);
+        assert((a + b).drop_first() =~= a.drop_first() + b);
+        lemma_encode_concat(a.drop_first(), b);
+    }
+}
+/// the byte offset of the start of an ASCII tail
+pub proof fn lemma_boff_ascii_tail(s: Seq<char>, k: int)
+    requires 0 <= k <= s.len(), is_ascii_chars(s.subrange(k, s.len() as int))
+    ensures boff(s, k) == encode_utf8(s).len() - (s.len() - k)
+{
+    let a = s.subrange(0, k); let b = s.subrange(k, s.len() as int);
+    assert(s =~= a + b);
+    lemma_encode_concat(a, b);
+    is_ascii_chars_encode_utf8(b);
+}
 pub broadcast group group_bounds { b_str_ends_boundary, b_cidx_end }
 /// index of the first occurrence (meaningful when there is one)
 pub open spec fn first_idx(s: Seq<char>, p: Seq<char>) -> int { choose|i: int| first_at(s, p, i) }
